@@ -1047,6 +1047,10 @@ class Engine:
         if self_val is not None:
             pos = [self_val] + pos
         if any(isinstance(x, StarArgs) for x in pos):
+            fixed = [x for x in pos if not isinstance(x, StarArgs)]
+            if not a.vararg and len(fixed) >= len(names):
+                # every parameter is already bound by the explicit arguments: any element of the starred tuple overflows
+                raise ArityError('takes %d positional arguments but %d + len(*args) were given: a non-empty starred tuple does not fit' % (len(names), len(fixed)))
             raise Unsupported('star-args of unknown length')
         if len(pos) > len(names) and not a.vararg:
             raise ArityError('takes %d positional arguments but %d were given' % (len(names), len(pos)))
